@@ -126,6 +126,12 @@ def step (s : GsS) (t : List String) (implObs : String) : GsS × StepOut :=
         match parseAddr new, parseTreeAuth au with
         | some n, some au => finish s (transferOwnership st (au.toList [st.owner]) n)
         | _, _ => bad s op
+      | "gs.upgrade_migrate", [auth] =>
+        -- upgrade to the same code + migration of the current tree: owner only, and the identity on everything modelled
+        if auth = "@" then (s, ⟨"ok", "ok"⟩) else
+        match parseTreeAuth auth with
+        | some au => if st.owner ∈ au.toList [st.owner] then (s, ⟨"ok", "ok"⟩) else (s, ⟨"err", "unauthorized"⟩)
+        | none => bad s op
       | "gs.owner", [] => (s, ⟨"ok " ++ addrTok st.owner, "ok"⟩)
       | "gs.collector", [] => (s, ⟨"ok " ++ addrTok st.collector, "ok"⟩)
       | _, _ => bad s ("unknown op " ++ op)
